@@ -44,6 +44,8 @@ def path_of(e):
         if cur[0] == 'field':
             parts.append(cur[2])
             cur = cur[1]
+        elif cur[0] == 'payload' and cur[2] == 'Some' and cur[3] == 0 and strip(cur[1])[0] == 'call' and re.search(r'ItemDefinition::resolved$', strip(cur[1])[1]):
+            cur = cur[1]            # `let Some(r) = d.resolved() else { bail }` is `d.resolved().context(..)?`
         elif cur[0] == 'payload':
             parts.append('%s#%d' % (cur[2], cur[3]))
             cur = cur[1]
@@ -158,7 +160,7 @@ def item_alts(ctx, item):
             rest = [i for i in range(len(parts)) if i not in en + st]
             cats = set()
             for i in rest:
-                cats |= set(re.findall(r'=(\w+)', labs[i]))
+                cats |= set(re.findall(r'=(\w+)', labs[i])) - {'Some', 'None', 'True', 'False', 'Ok'}     # (an enclosing `let Some(..) = d.resolved()` is not a category)
             ok = len(en) == 1 and len(st) == 1 and 'Defined' in labs[en[0]] and 'Enum' in labs[en[0]] and 'Defined' in labs[st[0]] and 'Type' in labs[st[0]] \
                 and all(parts[i].strip() == '' for i in rest) and cats == {'Predefined', 'Extern'} and not any('Defined' in re.findall(r'=(\w+)', labs[i]) for i in rest)
         if not ok and len(parts) == 2 and len(labs) == 2 and getattr(ctx, 'items_defined_only', False):
